@@ -21,7 +21,7 @@ VIEW_FUNCS = {"reshape", "transpose", "squeeze", "atleast_1d", "atleast_2d", "at
 VIEW_METHODS = {"reshape", "transpose", "squeeze", "ravel", "swapaxes", "view"}
 COPY_METHODS = {"copy", "flatten", "astype", "tolist", "conj", "conjugate", "round", "clip", "toarray", "todense", "tocsc", "tocsr", "tocoo"}
 INPLACE_METHODS = {"fill", "sort", "resize", "put", "itemset", "setfield", "partition", "setflags", "byteswap"}
-LIST_MUTATORS = {"append", "extend", "insert", "pop", "remove", "clear", "update", "setdefault", "popitem", "sort", "reverse"}
+LIST_MUTATORS = {"append", "extend", "insert", "pop", "remove", "clear", "update", "setdefault", "popitem", "sort", "reverse", "add", "discard"}
 
 FRAMEWORK_METHODS = {
     "add_input", "add_output", "declare_partials", "add_subsystem", "connect", "set_check_partial_options",
@@ -270,18 +270,29 @@ def method_call(it, n, b, attr, args, kwargs, st):
     if b.kind in ("list", "dict", "set") and attr in LIST_MUTATORS:
         it.emit("container_mutation", n, st, base=b, method=attr, args=args, src=unparse(n.func.value))
         base = n.func.value
-        if b.kind == "list" and attr in ("append", "extend") and args:
+        is_set = b.kind == "list" and isinstance(b.extra, tuple) and len(b.extra) > 1 and b.extra[0] == "from" and b.extra[1] in ("set", "frozenset")
+        if b.kind == "list" and (attr in ("append", "extend") or (is_set and attr in ("add", "update"))) and args:
             items = None
-            if b.items is not None and attr == "append":
+            if b.items is not None and attr in ("append", "add"):
                 items = list(b.items) + [args[0]]
-            elif b.items is not None and attr == "extend" and args[0].items is not None:
+            elif b.items is not None and attr in ("extend", "update") and args[0].items is not None:
                 items = list(b.items) + list(args[0].items)
+            if is_set and items is not None:
+                if all(x.kind == "str" and x.tmpl is not None for x in items):
+                    seen, ded = set(), []
+                    for x in items:
+                        if x.tmpl not in seen:
+                            seen.add(x.tmpl)
+                            ded.append(x)
+                    items = ded
+                else:
+                    items = None
             from .absval import join_dom
 
             nd = dict(b.dom)
             for a_ in args:
                 nd = join_dom(nd, a_.dom)
-            nv = Val("list", items=items, dep=b.dep | d | st.ctrl, cfg=b.cfg and c and not st.ctrl, obj=b.obj, dom=nd)
+            nv = Val("list", items=items, dep=b.dep | d | st.ctrl, cfg=b.cfg and c and not st.ctrl, obj=b.obj, dom=nd, extra=b.extra if is_set else None)
             it._rebind(base, nv, st)
         elif b.kind == "dict" and attr in ("update",) and args and args[0].kind == "dict" and b.items is not None and args[0].items is not None:
             items = dict(b.items)
@@ -543,6 +554,18 @@ def builtin_call(it, n, short, args, kwargs, st, hd, c, cx):
     if short in ("list", "tuple", "sorted", "reversed", "set", "dict", "enumerate", "zip", "iter", "next", "frozenset"):
         if short in ("list", "tuple") and a0.items is not None and isinstance(a0.items, (list, tuple)):
             return Val(short, items=(list if short == "list" else tuple)(a0.items), dep=hd, cfg=c)
+        if short in ("set", "frozenset") and a0.items is not None and isinstance(a0.items, (list, tuple)) and all(x.kind == "str" and x.tmpl is not None for x in a0.items):
+            # set of known strings: keep the (deduplicated) members so list(set([...])) stays a known list
+            seen, items = set(), []
+            for x in a0.items:
+                if x.tmpl not in seen:
+                    seen.add(x.tmpl)
+                    items.append(x)
+            return Val("list", items=items, dep=hd, cfg=c, extra=("from", short, a0))
+        if short in ("set", "frozenset") and not args:
+            return Val("list", items=[], cfg=True, extra=("from", short, None))
+        if short == "sorted" and a0.items is not None and isinstance(a0.items, (list, tuple)) and all(x.kind == "str" and x.tmpl is not None for x in a0.items) and not kwargs:
+            return Val("list", items=sorted(a0.items, key=lambda x: x.tmpl), dep=hd, cfg=c)
         if short == "dict" and not args:
             return Val("dict", items=dict(kwargs), cfg=c, dep=hd)
         if short == "list" and not args:
